@@ -85,6 +85,7 @@ func replayAny(o *Out, lines []string) {
 	smr := &smRunner{o: o}
 	var rgLines []string
 	tbr := &tbRunner{o: o}
+	mtr := &mtRunner{o: o}
 	e := &evRunner{o: o, prev: map[string]*evPrev{}, res: map[string][]*evPrev{}, rng: NewRng(1)}
 	for _, l := range lines {
 		f := strings.Fields(l)
@@ -124,6 +125,8 @@ func replayAny(o *Out, lines []string) {
 			smr.replay([]string{l})
 		case "tb":
 			tbr.replay([]string{l})
+		case "mt":
+			mtr.replay([]string{l})
 		case "rg":
 			rgLines = append(rgLines, l)
 		case "ev":
